@@ -133,6 +133,10 @@ class RecApp(app_mod.Application):
         self.sim.app_requests.append((self.idx, message))
         h = message.header
         self.sim.obs.append(f"APP a{self.idx} REQ cmd={h.command_code} hbh={h.hop_by_hop_identifier} e2e={h.end_to_end_identifier}")
+        if self.sim.during:
+            evs, self.sim.during = self.sim.during, []
+            for e in evs:
+                self.sim.event(e, nested=True)
         if self.raise_on_request == "raise0":
             raise KeyError            # an exception without arguments
         if self.raise_on_request:
@@ -192,6 +196,10 @@ class Sim:
                 k, v = item.split("=")
                 kv[k] = v
         self.kv = kv
+        self._readers_running: list = []
+        # events that happen while a basic application's request handler is running (the reader thread is inside it):
+        # `during=ev+ev` in the configuration, e.g. `during=eof_0`; consumed by the first handler call
+        self.during = [x.replace("_", " ") for x in kv["during"].split("+")] if kv.get("during") else []
         listen = kv.get("listen", "1") == "1"
         self.node = node_mod.Node(kv.get("host", "node.local"), kv.get("realm", "realm.local"),
                                   ip_addresses=[f"10.0.0.{i + 1}" for i in range(int(kv.get("addrs", "1")))] if listen else None,
@@ -317,14 +325,18 @@ class Sim:
                     except Exception:
                         break
                 c._read_buffer_queue = rq = q
-            if rq.items and not c._read_thread.stop_requested and not c._read_thread.crashed:
+            if rq.items and not c._read_thread.stop_requested and not c._read_thread.crashed \
+                    and c not in self._readers_running:
                 progressed = True
+                self._readers_running.append(c)     # (a reader that is inside a handler is not entered again: it is one thread)
                 try:
                     c.work_read_queue(c._read_thread)
                 except Exception as e:  # noqa
                     self.obs.append(f"CRASH reader {self.cname(c)} {type(e).__name__}")
                     self.env.crashes.append(("reader", e))
                     c._read_thread.crashed = True
+                finally:
+                    self._readers_running.remove(c)
                 c._read_thread.pause = False
             wq = c._write_msg_queue
             if not isinstance(wq, OneShotQueue):
@@ -474,6 +486,15 @@ class Sim:
             c = self.conns[int(t[1])]
             c.node_name = ""
             c.host_identity = "ghost.x"
+        elif op == "rxm":
+            # several sockets become readable in the same pass of the I/O loop: rxm k1:msg k2:msg …
+            for part in t[1:]:
+                k, m = part.split(":", 1)
+                s = self.sock(int(k))
+                if s is not None and not s.closed:
+                    s.inbox.append(build_msg(m))
+                    self.env.want_read.add(s)
+            self.settle()
         elif op == "rxcut":
             s = self.sock(int(t[1]))
             b1, b2 = build_msg(t[3]), build_msg(t[4])
@@ -622,7 +643,7 @@ class Sim:
         ansW = sum(len(a._answer_waiting) for a in self.apps)
         self.obs.append(f"SIZE conns={len(n.connections)} socks={len(n.peer_sockets)} sockPeers={len(n.socket_peers)} "
                         f"half={len(n._half_ready_connections)} appW={len(n._app_waiting_answer)} peerW={peerw} "
-                        f"origW={len(n._origin_waiting_answer)} sent={sent} ansW={ansW}")
+                        f"origW={len(n._origin_waiting_answer)} sent={sent} ansW={ansW} peerWc={len(n._peer_waiting_answer)}")
         open_socks = sum(1 for s in self.env.sockets if not s.closed and s.kind == "peer")
         live_workers = 0
         for c in self.conns:
